@@ -39,7 +39,7 @@ func stringConst(rel, name string) string {
 	return ""
 }
 
-func leanBytes(s string) string {
+func pathsLeanBytes(s string) string {
 	parts := make([]string, len(s))
 	for i := 0; i < len(s); i++ {
 		parts[i] = fmt.Sprint(s[i])
@@ -54,9 +54,9 @@ func genPaths() {
 	var sb strings.Builder
 	sb.WriteString("namespace PB.Gen.Paths\n\n")
 	sb.WriteString("/-- `apiV1Path` (api/endpoints.go): the URL prefix bridged requests must stay below. -/\n")
-	fmt.Fprintf(&sb, "def apiV1Path : List UInt8 := %s -- %q\n\n", leanBytes(api), api)
+	fmt.Fprintf(&sb, "def apiV1Path : List UInt8 := %s -- %q\n\n", pathsLeanBytes(api), api)
 	sb.WriteString("/-- `zipSuffix` (updater/unpacking.go). -/\n")
-	fmt.Fprintf(&sb, "def zipSuffix : List UInt8 := %s -- %q\n\n", leanBytes(zip), zip)
+	fmt.Fprintf(&sb, "def zipSuffix : List UInt8 := %s -- %q\n\n", pathsLeanBytes(zip), zip)
 	sb.WriteString("end PB.Gen.Paths\n")
 	write("Paths.lean", sb.String())
 }
